@@ -80,3 +80,33 @@ Theorem C01_encrypted_same_path :
     parse_encrypted ck cfg ids now need (EncN cid 0 p) = parse_assertion ck cfg ids now need p.
 Proof. reflexivity. Qed.
 Print Assumptions C01_encrypted_same_path.
+
+(* Against a party that lacks the IdP's keys (Dolev-Yao): suppose every Signature occurring
+   anywhere in the presented document (also inside decryptable EncryptedAssertions) that was
+   produced by a key the SP trusts is a signature the IdP made over one of the elements in H
+   - the attacker may copy, move, drop and re-wrap such signatures and elements at will, add
+   signatures by other keys, comments, foreign elements, change KeyInfo, re-encrypt.  Then the
+   returned assertion is unmarshalled from an element e which, once the signature found for it
+   is removed, is canonically equal (comments dropped) to an element of H - or e is a
+   candidate child of the Response r for which that holds. *)
+Theorem C01_dolev_yao :
+  forall cfg H ids now cur r a,
+    honest_signers cfg H r ->
+    parse_xml_response cfg ids now cur (DRoot r) = Ok a ->
+    exists e h uri signer ki over rest,
+      In e (cand_elems r) /\ un_assertion e = Ok a /\ In h H /\ canon rest = canon h /\
+      (find_sig (attr "ID" (node_attrs e)) (strip_keyinfo e) = FHit uri signer ki over rest \/
+       find_sig (attr "ID" (node_attrs r)) (strip_keyinfo r) = FHit uri signer ki over rest).
+Proof. exact accepted_content_was_signed. Qed.
+Print Assumptions C01_dolev_yao.
+
+(* non-vacuity: a Response signed by the metadata signing key is accepted; the same content
+   signed by the encryption-use key, by an unknown key (whatever its KeyInfo claims) or not
+   signed at all is rejected *)
+Example C01_nonvacuous :
+  obs_of (parse_xml_response ex_cfg ["id-0"; "id-1"] ex_now "https://sp/acs" (DRoot (ex_signed 0 (KICert 0))))
+  = OAccept "a1" "alice" ["alice@example.com"] /\
+  map (fun d => obs_of (parse_xml_response ex_cfg ["id-1"] ex_now "https://sp/acs" (DRoot d)))
+      [ex_signed 2 (KICert 2); ex_signed 9 (KICert 9); ex_signed 9 (KICert 0); ex_signed 9 KINone; ex_unsigned]
+  = [OReject 1; OReject 1; OReject 1; OReject 1; OReject 1].
+Proof. split; [exact ex_accepted|exact ex_rejected]. Qed.
